@@ -1,14 +1,23 @@
 ---------------------------- MODULE Checker_gen ----------------------------
-(* Emits every complete check sequence of Checker.tla for replay through one real allowerContext. *)
+(* Emits every complete check sequence of Checker.tla for replay through one real allowerContext:            *)
+(* one "pool" record per room version (the steps: state, event, event-ID tags, redacted-copy flags) and one   *)
+(* compact record per sequence (pool indexes and the verdict of every check); checks/c09.py joins the two.    *)
 EXTENDS Checker, Json
 
-VersionsQuick == {"6", "8", "10", "12", "org.matrix.msc3787"}
+\* "1": sender-chosen event IDs, redaction algorithm 1; "11": redaction algorithm 5 (power levels keep `invite`,
+\* create keeps everything) without privileged creators; "12": privileged creators, room ID = create event ID;
+\* "org.matrix.msc4014": also replayed with sender keys in place of user IDs
+VersionsQuick == {"1", "6", "8", "10", "11", "12", "org.matrix.msc3787", "org.matrix.msc4014"}
 VersionsAll == AllVersions
 
-Emit == (phase = "idle" /\ Len(seq) = MaxLen) =>
+EmitPool == (phase = "idle" /\ seq = <<>>) =>
           PrintT(ToJson([ver |-> ver,
-                         steps |-> [k \in 1..Len(seq) |->
-                                      LET s == Pool(ver)[seq[k]] IN
-                                      [n |-> seq[k], st |-> s.st, ev |-> s.ev, ctag |-> s.ctag, ptag |-> s.ptag,
-                                       jtag |-> s.jtag, want |-> verdicts[k]]]]))
+                         pool |-> [i \in 1..NPool |->
+                                      LET s == PoolOf[ver][i] IN
+                                      [n |-> i, st |-> s.st, ev |-> s.ev, ctag |-> s.ctag, ptag |-> s.ptag,
+                                       jtag |-> s.jtag, cred |-> s.cred, pred |-> s.pred, jred |-> s.jred,
+                                       fresh |-> FreshVerdict(ver, i)]]]))
+
+Emit == (phase = "idle" /\ Len(seq) = MaxLen) =>
+          PrintT(ToJson([ver |-> ver, seq |-> seq, want |-> verdicts]))
 =============================================================================
